@@ -20,7 +20,7 @@ func init() {
 			"is released (CV3), grant consumption and time stamping happen in one critical section (AT1); (engine E4/E7, added below when built) the callback flows only into time.AfterFunc with the " +
 			"configured duration, a pending timer is stopped before it is replaced, the stop flag is monotone. Timing inequalities are not decided. GG4 one permission per period also for a Next that arrives after a trailing trigger: Next consumes only where the period is known to have elapsed (all eight assignments of stop / waiting / elapsed walked from the entry and from every return of cond.Wait), or Call never grants before it.",
 		Assumptions: []string{"contracts of time.AfterFunc, time.Timer.Stop, sync.Cond, sync.Mutex"},
-		NotDecided:  []string{"every wall-clock inequality", "races between Timer.Stop and an already firing timer", "trailing-mode rate (at most one permission per period)"},
+		NotDecided:  []string{"every wall-clock inequality", "races between Timer.Stop and an already firing timer"},
 		Run: func(p *core.Program, r *core.Report) {
 			res := runLockset(p)
 			checkGuardTable(res, r, funcTypes)
